@@ -129,6 +129,8 @@ func c14Child(args []string) {
 var c14Targets = []string{
 	"/outside", "/outside/f", "/outside/d", "../outside", "../outside/f", "../../outside/d", "../../../outside/f",
 	"a", "/a", "b/c", "..", "/", ".", "loop", "nonexistent", "/nonexistent/x", "a/../../outside/f", "d/../../outside",
+	// dangling, but the parent exists outside: creating through the link would make a new outside file
+	"/outside/new", "../outside/new2", "/outside/d/new3", "../../outside/d/new4", "/new5", "../new6",
 }
 
 // view with symlinks to the targets above sprinkled over a small name universe
